@@ -85,15 +85,15 @@ PROPS = {
         'rule': "mixed requests with 15% faults; recorder run: random events from 16 goroutines with Reset barriers. distinct_nontrivial = distinct requests with a non-plain response",
     },
     'C13': {
-        'claimed': False,
-        'level_text': "", 'level_note': "",
+        'level_text': "Theorems C13_fixed_order (revisions and their order depend on level:version only), C13_reason_specific (never empty / placeholder), C13_once (no two violated controls share a reason, for every level, version, pod -- from the decided fact that co-active revisions have distinct reason keys), C13_mk_fields / C13_*_offenders / C13_offenders_are_violators (listed names = names of the objects violating the control's predicate), detail shapes; reason and detail bytes of every revision and evaluation compared with the real code.",
+        'level_note': "Trusted: Lean kernel; harness; Go's %q modelled for printable ASCII, the named escapes and a few non-ASCII runes. A harmless rewording of a message breaks this correspondence by design (reported with no-failing-input-found).",
         'rule': "same pod generator; reason/detail bytes of every revision and of every evaluation compared with the model's rendering; direct oracles on the Go output: "
                 "no empty/placeholder/duplicate reason, fixed check order, quoted names are offenders. distinct_nontrivial = (pod, level, version) with >= 2 violated controls",
         'assumptions': ["message text alphabet: printable ASCII, the Go escapes, a few printable non-ASCII runes"],
     },
     'C14': {
-        'claimed': False,
-        'level_text': "", 'level_note': "",
+        'level_text': "Theorems C14_rev_order_independent / C14_order_independent: every revision and every evaluation (verdict, reason and detail bytes) is invariant under permutation of the annotation map's entries, the only map the checks iterate; C14_values_canonical (value sets rendered through a sort that forgets order and multiplicity). The real evaluator is run 1+8 times serially and from 16 goroutines under the race detector, the pod compared with a deep copy, and the bytes compared with the model fed two iteration orders.",
+        'level_note': "Trusted: Lean kernel; harness. Partial: absence of data races and of writes through the pod pointers is observed (race detector, DeepEqual), not proved in Lean.",
         'race': True,
         'rule': "pods forced to carry several offending annotations / capabilities / ports; evaluated 1+8 times serially and from 16 goroutines under the race detector; pod deep-equal to its copy; "
                 "model evaluated on two iteration orders of the annotation map must give Go's bytes. distinct_nontrivial = pods",
